@@ -726,6 +726,8 @@ def convert(name, v):
         if tag == "string":
             if re.fullmatch(r"-?(\d+\.?\d*|\.\d+)([eE][+-]?\d+)?", p):
                 return ("double", float(p))
+            if not any(ch.isdigit() for ch in p) and p.strip().lower().lstrip("+-") not in ("inf", "infinity", "nan"):
+                raise ModelErr("unparsable double")
             raise Unspec("double text")
         raise Unspec("double(" + tag + ")")
     if name == "string":
@@ -780,6 +782,8 @@ def parse_rfc3339(s: str) -> int:
 
     m = re.fullmatch(r"(\d{4})-(\d\d)-(\d\d)T(\d\d):(\d\d):(\d\d)(\.\d{1,6})?(Z|[+-]\d\d:\d\d)", s)
     if not m:
+        if not any(ch.isdigit() for ch in s):
+            raise ModelErr("unparsable timestamp")
         raise Unspec("timestamp text outside the strict RFC 3339 fragment")
     y, mo, d, hh, mi, ss = (int(m.group(i)) for i in range(1, 7))
     if not (1 <= mo <= 12 and 1 <= d <= 31 and hh < 24 and mi < 60 and ss < 60 and y >= 1):
@@ -801,6 +805,8 @@ def parse_duration_ns(s: str) -> Fraction:
 
     m = re.fullmatch(r"([+-]?)((?:\d+(?:\.\d*)?|\.\d+)(?:ns|us|ms|s|m|h))+", s)
     if not m:
+        if not re.fullmatch(r"[-+]?([0-9]*(\.[0-9]*)?[a-z\u00b5]+)+", s):
+            raise ModelErr("unparsable duration")
         raise Unspec("duration text outside fragment")
     total = Fraction(0)
     for num, unit in re.findall(r"(\d+(?:\.\d*)?|\.\d+)(ns|us|ms|s|m|h)", s):
